@@ -18,6 +18,9 @@ Section MD.
   Variable len_impl : N -> nat -> list N.
   (* length field of the standard, from the total byte length *)
   Variable len_spec : N -> list N.
+  (* number of blocks already absorbed into [iv] before this run (0 for a fresh
+     context; the public context structs let a caller install any counter) *)
+  Variable n0 : N.
 
   (* ---------- folding whole blocks ---------- *)
   Fixpoint foldn (k : nat) (st : S) (d : list N) : S :=
@@ -29,7 +32,7 @@ Section MD.
   (* ---------- Impl model ---------- *)
   Record ctx := mk { st : S; nb : N; buf : list N }.
 
-  Definition init : ctx := mk iv 0%N [].
+  Definition init : ctx := mk iv (n0 mod 2^64)%N [].
 
   Definition tail (s : S) (n : N) (d : list N) : ctx :=
     let k := length d / B in
@@ -60,7 +63,8 @@ Section MD.
     if r + 1 + LB <=? B then B - (r + 1 + LB) else 2 * B - (r + 1 + LB).
 
   Definition md_pad (msg : list N) : list N :=
-    msg ++ [128%N] ++ zeros (padz (length msg)) ++ len_spec (N.of_nat (length msg)).
+    msg ++ [128%N] ++ zeros (padz (length msg))
+        ++ len_spec (n0 * N.of_nat B + N.of_nat (length msg))%N.
 
   Definition md_hash (msg : list N) : list N :=
     let p := md_pad msg in out (foldn (length p / B) iv p).
@@ -68,7 +72,7 @@ Section MD.
   (* state reached after absorbing [msg], as a function of msg alone *)
   Definition ctx_of (msg : list N) : ctx :=
     let k := length msg / B in
-    mk (foldn k iv msg) (N.of_nat k mod 2^64)%N (skipn (k * B) msg).
+    mk (foldn k iv msg) ((n0 + N.of_nat k) mod 2^64)%N (skipn (k * B) msg).
 
   (* ---------- Theorems ---------- *)
   Hypothesis B_pos : 0 < B.
@@ -79,7 +83,8 @@ Section MD.
      C block counter is 64 bits wide) *)
   Variable Lok : nat -> Prop.
   Hypothesis len_impl_ok : forall (k r : nat), r < B -> Lok k ->
-    len_impl (N.of_nat k mod 2^64)%N r = len_spec (N.of_nat (k * B + r)).
+    len_impl ((n0 + N.of_nat k) mod 2^64)%N r
+    = len_spec (n0 * N.of_nat B + N.of_nat (k * B + r))%N.
 
   Lemma foldn_add j k s d :
     foldn (j + k) s d = foldn k (foldn j s d) (skipn (j * B) d).
@@ -111,7 +116,7 @@ Section MD.
   Qed.
 
   Lemma tail_ok k (m d : list N) : length m = k * B ->
-    tail (foldn k iv m) (N.of_nat k mod 2^64)%N d = ctx_of (m ++ d).
+    tail (foldn k iv m) ((n0 + N.of_nat k) mod 2^64)%N d = ctx_of (m ++ d).
   Proof.
     intros Hm. unfold tail, ctx_of.
     rewrite app_length, Hm.
@@ -121,7 +126,7 @@ Section MD.
     - rewrite foldn_add. rewrite (foldn_app_l k) by lia.
       rewrite skipn_app, <- Hm, skipn_all, Nat.sub_diag. reflexivity.
     - rewrite N.add_mod_idemp_l by (cbv; discriminate).
-      rewrite Nat2N.inj_add. reflexivity.
+      rewrite Nat2N.inj_add, N.add_assoc. reflexivity.
     - rewrite Nat.mul_add_distr_r, <- Hm.
       rewrite skipn_app.
       replace (length m + length d / B * B - length m) with (length d / B * B) by lia.
@@ -146,11 +151,11 @@ Section MD.
     - (* empty buffer: length m is a multiple of B *)
       cbn [length] in Hbl.
       change (st (ctx_of m)) with (foldn k iv m).
-      change (nb (ctx_of m)) with (N.of_nat k mod 2^64)%N.
+      change (nb (ctx_of m)) with ((n0 + N.of_nat k) mod 2^64)%N.
       apply tail_ok. lia.
     - rewrite <- Hbuf in *. clear Hbuf b0 bs.
       change (st (ctx_of m)) with (foldn k iv m).
-      change (nb (ctx_of m)) with (N.of_nat k mod 2^64)%N.
+      change (nb (ctx_of m)) with ((n0 + N.of_nat k) mod 2^64)%N.
       rewrite Hbl.
       destruct (length d <? B - length m mod B) eqn:Hlt.
       + apply Nat.ltb_lt in Hlt.
@@ -182,12 +187,13 @@ Section MD.
           -- rewrite firstn_length_le by lia. reflexivity.
           -- rewrite app_length, skipn_length, firstn_length_le by lia. lia.
         * rewrite N.add_mod_idemp_l by (cbv; discriminate).
-          rewrite Nat2N.inj_add. reflexivity.
+          rewrite Nat2N.inj_add, N.add_assoc. reflexivity.
   Qed.
 
   Lemma init_ctx_of : init = ctx_of [].
   Proof.
-    unfold init, ctx_of. cbn [length]. rewrite Nat.div_0_l by lia. reflexivity.
+    unfold init, ctx_of. cbn [length]. rewrite Nat.div_0_l by lia.
+    cbn [N.of_nat foldn skipn Nat.mul]. rewrite N.add_0_r. reflexivity.
   Qed.
 
   Theorem updates_ctx_of chunks m :
@@ -222,11 +228,11 @@ Section MD.
     assert (Hr : length m mod B < B) by (apply Nat.mod_upper_bound; lia).
     change (buf (ctx_of m)) with (skipn (k * B) m).
     change (st (ctx_of m)) with (foldn k iv m).
-    change (nb (ctx_of m)) with (N.of_nat k mod 2^64)%N.
+    change (nb (ctx_of m)) with ((n0 + N.of_nat k) mod 2^64)%N.
     assert (Hbl : length (skipn (k * B) m) = length m mod B) by apply buf_length.
     rewrite Hbl.
     rewrite len_impl_ok by assumption. rewrite <- Hdm.
-    set (lf := len_spec (N.of_nat (length m))).
+    set (lf := len_spec (n0 * N.of_nat B + N.of_nat (length m))%N).
     assert (Hlf : length lf = LB) by apply len_spec_length.
     set (r := length m mod B) in *.
     set (pre := firstn (k * B) m). set (bf := skipn (k * B) m).
